@@ -95,6 +95,14 @@ def constructed():
                             out.append("%s * %s %s" % (cop, x, y))
                         else:
                             out.append("%s * %s %s" % (cop, y, x))
+    # operands at the widths of the primitive types (narrow-type fast paths)
+    tb = G.type_boundary_coeffs()
+    for c in tb:
+        for s in (0, 1, 18):
+            for d in (1, -1, c, -c, M, -M, rng.choice(tb)):
+                t = rng.choice((s, 0, 18, rng.randrange(0, 19)))
+                for op in OPS:
+                    out.append("%s * %s %s" % (op, G.fD(c, s), G.fD(d, t)))
     # int operands at the type bounds, both positions, all scales
     for ty in OP_INT_TYPES:
         lo, hi = INT_TYPES[ty]
